@@ -19,6 +19,8 @@ import (
 	"golang.org/x/tools/go/ssa/ssautil"
 )
 
+var progress = os.Getenv("GOSYM_PROGRESS") != ""
+
 type Config struct {
 	RepoDir         string
 	Overlay         map[string][]byte
@@ -37,6 +39,7 @@ type Config struct {
 	Trace           bool
 	MapOrderPerms   bool
 	SolverLog       string
+	ValidatePerCell int
 
 	embedPath string
 }
@@ -200,6 +203,7 @@ func (p *Program) NewInterp() (*Interp, error) {
 		env:      newEnv(),
 		maxSteps: cfg.MaxSteps * 20, // generous during initialisation
 		trace:    cfg.Trace,
+		panicSeen: map[string]bool{},
 	}
 	in.Stats.Funcs = map[string]bool{}
 	if len(p.Pkgs) > 0 {
@@ -273,6 +277,15 @@ type PathSample struct {
 	Asserts   int               `json:"asserts"`
 }
 
+// ValidationSample is a completed path together with a model of its path
+// condition and the values the harness noted, for comparison with a native run.
+type ValidationSample struct {
+	Harness string            `json:"harness"`
+	Model   map[string]int64  `json:"model"`
+	Chooses map[string]int    `json:"chooses"`
+	Notes   map[string]string `json:"notes"`
+}
+
 type CellResult struct {
 	Harness      string
 	Prefix       []int
@@ -288,6 +301,7 @@ type CellResult struct {
 	Samples      []PathSample
 	Asserts      int
 	AssertsUnsat int
+	Validations  []*ValidationSample
 	Prefixes     [][]int // discover mode
 	Wall         float64
 	TruncatedAt  int
@@ -320,8 +334,12 @@ func (in *Interp) RunHarness(fn *ssa.Function, prefix []int, prefixArity []int) 
 		}
 		res.Paths++
 		in.Stats.Paths++
+		tp := time.Now()
 		outcome := in.runPath(fn, decs, checkAt, res)
 		p := in.path
+		if progress {
+			fmt.Fprintf(os.Stderr, "path %d: %s decisions=%d steps=%d queries=%d %.2fs [%s]\n", res.Paths, outcome, p.pos, in.steps, in.Stats.SolverQueries, time.Since(tp).Seconds(), in.pathLabel())
+		}
 		decs = p.decs
 		in.path = nil
 		_ = outcome
@@ -354,6 +372,7 @@ func (in *Interp) runPath(fn *ssa.Function, decs []decision, checkAt int, res *C
 	in.steps = 0
 	in.depth = 0
 	in.violationsMark = len(in.violations)
+	in.abortStack = ""
 	mark := len(in.undo)
 	in.undoOn = true
 	in.sv.Push()
@@ -385,7 +404,7 @@ func (in *Interp) runPath(fn *ssa.Function, decs []decision, checkAt int, res *C
 				}
 			case Inconclusive:
 				outcome = "inconclusive"
-				res.Inconclusive = append(res.Inconclusive, r.Reason+" ["+in.pathLabel()+"]")
+				res.Inconclusive = append(res.Inconclusive, r.Reason+" ["+in.pathLabel()+"]\n"+in.abortStack)
 			case exitPanic:
 				outcome = fmt.Sprintf("exit:%d", int(r))
 				if in.outcomeViolation("no-exit", fmt.Sprintf("harness ended by os.Exit(%d)", int(r))) {
@@ -399,7 +418,7 @@ func (in *Interp) runPath(fn *ssa.Function, decs []decision, checkAt int, res *C
 			case runtime.Error:
 				if _, ok := r.(*runtime.TypeAssertionError); ok {
 					outcome = "inconclusive"
-					res.Inconclusive = append(res.Inconclusive, "engine error: "+r.Error()+" ["+in.pathLabel()+"]\n"+string(debug.Stack()))
+					res.Inconclusive = append(res.Inconclusive, "engine error: "+r.Error()+" ["+in.pathLabel()+"]\n"+in.abortStack)
 				} else {
 					outcome = describePanic(r)
 					// Go run-time errors raised inside the engine on behalf of the target
@@ -414,6 +433,11 @@ func (in *Interp) runPath(fn *ssa.Function, decs []decision, checkAt int, res *C
 		} else {
 			outcome = "done"
 			res.Completed++
+			if len(res.Validations) < in.cfg.ValidatePerCell {
+				if vs := in.validationSample(fn.String()); vs != nil {
+					res.Validations = append(res.Validations, vs)
+				}
+			}
 		}
 		for _, v := range in.violations[in.violationsMark:] {
 			res.Violations = append(res.Violations, v)
@@ -445,6 +469,58 @@ func (in *Interp) runPath(fn *ssa.Function, decs []decision, checkAt int, res *C
 	}()
 	in.callSSA(nil, 0, fn, nil, nil)
 	return
+}
+
+func (in *Interp) validationSample(harness string) (vs *ValidationSample) {
+	defer func() {
+		if r := recover(); r != nil {
+			vs = nil
+		}
+	}()
+	p := in.path
+	model, ok := in.fullModel()
+	if !ok {
+		return nil
+	}
+	um := map[string]uint64{}
+	for k, v := range model {
+		um[k] = uint64(v)
+	}
+	// digit variables are not part of the reported model; evaluate them from
+	// their atoms
+	for _, a := range p.atoms {
+		memo := map[int]uint64{}
+		mag := a.mag.Eval(um, memo)
+		for i := a.k - 1; i >= 0; i-- {
+			um[a.digits[i].name] = '0' + mag%10
+			mag /= 10
+		}
+	}
+	vs = &ValidationSample{Harness: harness, Model: model, Chooses: map[string]int{}, Notes: map[string]string{}}
+	for k, v := range p.chooses {
+		vs.Chooses[k] = v
+	}
+	for k, v := range p.notes {
+		vs.Notes[k] = v
+	}
+	memo := map[int]uint64{}
+	for k, bs := range p.noteBytes {
+		var sb strings.Builder
+		for _, e := range bs {
+			var c uint64
+			switch e := e.(type) {
+			case uint8:
+				c = uint64(e)
+			case symv:
+				c = e.t.Eval(um, memo)
+			default:
+				return nil
+			}
+			fmt.Fprintf(&sb, "%02x ", c&0xff)
+		}
+		vs.Notes[k] = sb.String()
+	}
+	return vs
 }
 
 func (in *Interp) pathLabel() string {
